@@ -134,7 +134,7 @@ def mutate_obs(data, kind, a, b, c, d):
     if kind == "last-event":
         # the stream ends on a clean event boundary with one event of a chosen shape:
         # whatever a handler reads beyond that event's declared bytes is outside the stream
-        sub = b % 6
+        sub = b % 7
         mcvj = ["VYc", "6Yc"][c % 2]
         k = (c >> 1) % 5
         if sub == 0:      # well-formed jumbo type event
@@ -149,6 +149,8 @@ def mutate_obs(data, kind, a, b, c, d):
             new = obs.encode_ev(mcv, e.clock, bytes([1 + d % 255]) * [0, 2, 3, 4, 7][k])
         elif sub == 4:    # the event itself stays, nothing follows
             new = e.raw
+        elif sub == 6:    # the stream ends right after a sort region was opened (or closed)
+            new = obs.encode_ev(["OU[", "OU]", "OU["][k % 3], e.clock)
         else:             # a listed event as a jumbo with little data
             mcv = listed()[(d >> 3) % len(listed())]
             new = obs.encode_ev(mcv, e.clock, bytes([1 + d % 255]) * [0, 1, 3, 4, 7][k], jumbo=True)
@@ -167,7 +169,8 @@ def mutate_obs(data, kind, a, b, c, d):
         wide = (c % 2 == 1) and len(e.payload) >= 8
         w = 8 if wide else 4
         k = (b % (len(e.payload) // w)) * w
-        ext = [-1, -2 ** 31, 2 ** 31 - 1, -2, 0, 100, -100000, 65536, 2 ** 63 - 1, -2 ** 63, -2 ** 31 + 1, 2 ** 30]
+        ext = [-1, -2 ** 31, 2 ** 31 - 1, -2, 0, 100, -100000, 65536, 2 ** 63 - 1, -2 ** 63, -2 ** 31 + 1, 2 ** 30,
+               1, 2, 3, 4, 5, 6, 7]       # (one past the last CPU index, thread, type ... of small systems)
         v = ext[(d >> 2) % len(ext)]
         ba[base + k:base + k + w] = (v & (2 ** (8 * w) - 1)).to_bytes(w, "little")
         return bytes(ba)
